@@ -435,6 +435,10 @@ def case_strategy(max_files):
 # ---------------------------------------------------------------------------
 
 
+# coverage-guided stage (atheris drives these Hypothesis shards, see vf/run.py): {tier: {shard kind: (shards, executions)}}
+CG = {'thorough': {'hyp': (6, 8000)}}
+
+
 def plan(tier, seed, scale=1.0):
     b = BOUNDS[tier]
     n = max(b["shards"], int(b["cases"] * scale))
